@@ -24,7 +24,8 @@ RULE = ("Export in {write_rtf, write_docx, write_html, write_pdf} x document fro
         "into any rtflite function during the export (quick: every distinct call site at its first, last and middle "
         "instance; thorough: EVERY call instance) x converter stub behaviour {writes file and returns Path; raises "
         "before writing; writes then raises; returns list / None / str; returns a Path that does not exist; writes "
-        "an HTML file plus a <name>_files folder} x target state {absent; present with known bytes; inside a missing "
+        "an HTML file plus a <name>_files folder; and the library's own LibreOfficeConverter on a fake soffice executable that "
+        "succeeds / exits 3 / exits 0 without output / writes HTML plus resources} x target state {absent; present with known bytes; inside a missing "
         "directory tree; (html) resource folder already present} x target names with and without the usual suffix; "
         "Hypothesis draws further combinations. Oracle: file-system snapshots (names + sha256) of the target's "
         "directory and of a private TMPDIR before/after: on an exception the target is byte-identical (or still "
@@ -51,7 +52,48 @@ DOCS = [
 ]
 EXPORTS = ("write_rtf", "write_docx", "write_html", "write_pdf")
 FMT = {"write_docx": "docx", "write_html": "html", "write_pdf": "pdf"}
-STUBS = ("ok", "raise_before", "write_then_raise", "returns_list", "returns_none", "returns_str", "missing_path", "html_with_files")
+STUBS = ("ok", "raise_before", "write_then_raise", "returns_list", "returns_none", "returns_str", "missing_path", "html_with_files",
+         # the library's own LibreOfficeConverter driven by a fake soffice executable (covers convert.py):
+         "real_ok", "real_exit3", "real_silent", "real_html_files")
+REAL_PAYLOAD = b"CONVERTED-BY-FAKE-SOFFICE"
+FAKE_SOFFICE = r"""#!/bin/sh
+MODE=$(cat "$(dirname "$0")/mode")
+if [ "$1" = "--version" ]; then echo "LibreOffice 7.6.4.1 60(Build:1)"; exit 0; fi
+FMT=pdf; OUT=.; IN=
+while [ $# -gt 0 ]; do
+  case "$1" in
+    --convert-to) FMT=$2; shift 2;;
+    --outdir) OUT=$2; shift 2;;
+    -*) shift;;
+    *) IN=$1; shift;;
+  esac
+done
+STEM=$(basename "$IN" .rtf)
+case "$MODE" in
+  real_ok) printf 'CONVERTED-BY-FAKE-SOFFICE' > "$OUT/$STEM.$FMT";;
+  real_exit3) echo "soffice: conversion failed" >&2; exit 3;;
+  real_silent) exit 0;;
+  real_html_files) printf 'CONVERTED-BY-FAKE-SOFFICE' > "$OUT/$STEM.$FMT"; mkdir "$OUT/$STEM.${FMT}_files"; printf IMG0 > "$OUT/$STEM.${FMT}_files/img0.png";;
+esac
+exit 0
+"""
+
+
+def make_converter(behaviour, base):
+    """A converter object for this case: an object-level stub, or the real LibreOfficeConverter on a fake executable."""
+    if not behaviour.startswith("real_"):
+        return Stub(behaviour)
+    from rtflite.convert import LibreOfficeConverter
+
+    bindir = os.path.join(base, "bin")
+    os.makedirs(bindir, exist_ok=True)
+    exe = os.path.join(bindir, "soffice")
+    with open(exe, "w") as f:
+        f.write(FAKE_SOFFICE)
+    os.chmod(exe, 0o755)
+    with open(os.path.join(bindir, "mode"), "w") as f:
+        f.write(behaviour)
+    return LibreOfficeConverter(executable_path=exe)
 TARGETS = ("absent", "present", "missing_dirs", "resdir_present")
 NAMES = {"write_rtf": ["out.rtf", "noext"], "write_docx": ["out.docx", "report"], "write_html": ["rep.html", "page.htm", "noext"],
          "write_pdf": ["out.pdf", "a.b.pdf"]}
@@ -132,9 +174,9 @@ def setup_case(case):
 
 
 @functools.lru_cache(None)
-def call_profile(export, doc_idx):
+def call_profile(export, doc_idx, stub=None):
     """List of call sites (file:function) entered during a fault-free export with the 'ok' / 'html_with_files' stub."""
-    case = {"export": export, "doc": doc_idx, "fault": None, "stub": "html_with_files" if export == "write_html" else "ok",
+    case = {"export": export, "doc": doc_idx, "fault": None, "stub": stub or ("html_with_files" if export == "write_html" else "ok"),
             "target": "absent", "name": NAMES[export][0]}
     base, tmp, area, target = setup_case(case)
     os.makedirs(os.path.join(base, "fig"), exist_ok=True)
@@ -143,7 +185,8 @@ def call_profile(export, doc_idx):
     tempfile.tempdir = tmp
     try:
         with contextlib.redirect_stdout(io.StringIO()):
-            _, calls = trace_calls(lambda: invoke(doc, export, target, Stub(case["stub"])))
+            conv = make_converter(case["stub"], base)
+            _, calls = trace_calls(lambda: invoke(doc, export, target, conv))
     finally:
         tempfile.tempdir = old
     return tuple(calls)
@@ -168,6 +211,13 @@ def enumerate_cases(tier):
                     sites.setdefault(c, []).append(k)
                 ks = sorted({x for v in sites.values() for x in (v[0], v[-1], v[len(v) // 2])})
             stub = "html_with_files" if export == "write_html" else "ok"
+            if export != "write_rtf" and di == 0:
+                # the same export through the library's own converter class: its call sites are fault points too
+                rstub = "real_html_files" if export == "write_html" else "real_ok"
+                rn = len(call_profile(export, di, rstub))
+                for k in (range(1, rn + 1) if tier == "thorough" else sorted({1, 2, 3, rn // 2, rn - 8, rn - 6, rn - 4, rn - 3, rn - 2, rn - 1, rn})):
+                    if k >= 1:
+                        yield {"export": export, "doc": di, "fault": k, "stub": rstub, "target": ("present", "absent")[k % 2], "name": NAMES[export][0]}
             for k in ks:
                 yield {"export": export, "doc": di, "fault": k, "stub": stub, "target": ("present", "absent", "resdir_present" if export == "write_html" else "missing_dirs")[k % 3],
                        "name": NAMES[export][k % len(NAMES[export])]}
@@ -214,7 +264,11 @@ def check(case) -> Result:
     except Exception as e:
         res.harness_error = f"document {di} does not build: {e}"
         return res
-    stub = Stub(case["stub"])
+    try:
+        stub = make_converter(case["stub"], base)
+    except Exception as e:
+        res.harness_error = f"converter set-up failed: {type(e).__name__}: {e}"
+        return res
     before_area = snapshot(area)
     captured = []
     orig_encode = type(doc).rtf_encode
@@ -272,15 +326,15 @@ def check(case) -> Result:
                     res.fail("file_not_well_formed", tag, "")
         else:
             fmt = FMT[export]
-            if case["stub"] not in ("ok", "html_with_files"):
+            if case["stub"] not in ("ok", "html_with_files", "real_ok", "real_html_files"):
                 res.fail("success_despite_converter_failure", tag, f"returned normally with stub behaviour {case['stub']}")
             if not os.path.isfile(target):
                 res.fail("success_without_file", tag, "")
             else:
                 with open(target, "rb") as f:
-                    if f.read() != PAYLOAD + fmt.encode():
+                    if f.read() != (REAL_PAYLOAD if case["stub"].startswith("real_") else PAYLOAD + fmt.encode()):
                         res.fail("target_content", tag, "target does not hold the converter's bytes")
-            if export == "write_html" and case["stub"] == "html_with_files":
+            if export == "write_html" and case["stub"] in ("html_with_files", "real_html_files"):
                 stem = Path(case["name"]).stem
                 rd = os.path.normpath(os.path.join(os.path.dirname(rel_target), f"{stem}.html_files"))
                 want = {rd + "/": "dir", os.path.join(rd, "img0.png"): hashlib.sha256(b"IMG0").hexdigest()}
@@ -299,7 +353,7 @@ def check(case) -> Result:
     res.labels = ["export=" + export, "stub=" + case["stub"], "target=" + case["target"], "fault=" + ("none" if case["fault"] is None else "fired" if fired else "not_reached"),
                   "outcome=" + ("raised" if outcome[0] == "exc" else "returned"),
                   "exc=" + (type(outcome[1]).__name__ if outcome[0] == "exc" else "-")]
-    res.nontrivial = (fired and case["fault"] > 1) or case["stub"] not in ("ok",) or case["target"] != "absent"
+    res.nontrivial = (fired and case["fault"] > 1) or case["stub"] not in ("ok", "real_ok") or case["target"] != "absent"
     shutil.rmtree(base, ignore_errors=True)
     return res
 
